@@ -37,18 +37,18 @@ TRUSTED = [
 def signature(rec):
     """stable signature of a failing input (matched against known_findings.json)"""
     v = rec.get("verdict", "")
+    if not v.startswith("bad:"):
+        return None
     if v == "bad:explain-node:idf":
-        # ONLY the idf node disagrees with its message on this line (any further failing node or check changes the verdict text)
+        # ONLY the idf node disagrees with its message on this line, and only for n < N (at n = N the driver says
+        # `idf@n=N`); any further failing node or check changes the verdict text and is NOT the known finding
         return "idf-node-message-vs-value"
-    if v.startswith("bad:explain-node:"):
-        return "explain-node:" + v[len("bad:explain-node:"):].split("+explain")[0]
-    if v.startswith("bad:assumption-"):
-        return v[4:]
-    if v.startswith("bad:parts:"):
-        return "parts"
-    if v.startswith("bad:"):
-        return v[4:].split(":")[0]
-    return None
+    toks = []
+    for t in v[4:].split("+"):
+        if t.startswith("parts:"):
+            t = "parts"          # the text after `parts:` spells out the expected/observed clause structure of one hit
+        toks.append(t)
+    return "+".join(toks)
 
 
 def search_after_break(ctx):
